@@ -78,6 +78,12 @@ type Contract struct {
 	Fresh       bool // may allocate
 	Invs        map[int][]*Clause
 	Decreases   map[int]*Clause
+	// OrderAssumed: "loop N: order_assumed <reason>": the order-independence of map-range loop N is not
+	// checked (C06); the reason is reported among the unchecked assumptions
+	OrderAssumed map[int]string
+	// OrderAssumedExpr: "maprange <ranged expression>: order_assumed <reason>" (keyed by the text of the
+	// ranged expression, so that adding or removing other loops does not move the assumption)
+	OrderAssumedExpr map[string]string
 	Variant     *Clause // function-level "decreases e": termination measure for (mutually) recursive calls
 	Guarded     []*GuardClause
 	SortKeys    []*Clause // "sortkey e($elem)": the key by which the function's sort.Slice call orders its slice
@@ -235,7 +241,7 @@ func displayName(f *types.Func) string {
 	return pkg + f.Name()
 }
 
-var kwRe = regexp.MustCompile(`^(requires|ensures|returns|assigns|loop|site|pure|trusted|noinline|safety|exits_if|decreases|guarded|sortkey|panics_if|props|is|let|errdrop)\b`)
+var kwRe = regexp.MustCompile(`^(requires|ensures|returns|assigns|loop|maprange|site|pure|trusted|noinline|safety|exits_if|decreases|guarded|sortkey|panics_if|props|is|let|errdrop)\b`)
 
 func (w *World) loadContracts(p *packages.Package) error {
 	dir := ""
@@ -448,9 +454,23 @@ func (w *World) parseBlock(p *packages.Package, path string, b *rawBlock) error 
 				}
 				cl.Kind = "decreases"
 				c.Decreases[n] = cl
+			case strings.HasPrefix(r2, "order_assumed"):
+				if c.OrderAssumed == nil {
+					c.OrderAssumed = map[int]string{}
+				}
+				c.OrderAssumed[n] = strings.TrimSpace(r2[len("order_assumed"):])
 			default:
-				return fmt.Errorf("line %d: loop clause must be invariant or decreases", lineNo)
+				return fmt.Errorf("line %d: loop clause must be invariant, decreases or order_assumed", lineNo)
 			}
+		case "maprange":
+			colon := strings.Index(rest, ": order_assumed")
+			if colon < 0 {
+				return fmt.Errorf("line %d: maprange clause must be 'maprange <expr>: order_assumed <reason>'", lineNo)
+			}
+			if c.OrderAssumedExpr == nil {
+				c.OrderAssumedExpr = map[string]string{}
+			}
+			c.OrderAssumedExpr[strings.TrimSpace(rest[:colon])] = strings.TrimSpace(rest[colon+len(": order_assumed"):])
 		case "site":
 			// site NAME: expr
 			colon := strings.Index(rest, ":")
